@@ -1,19 +1,12 @@
 --------------------------- MODULE MC_RegistryPairs ---------------------------
 (* DatasetCache restricted to SEQUENTIAL HEALTHY loads of every ordered pair of remote datasets of the
    extracted registry: process p1 loads a, then p2 loads b # a, default arguments, empty cache, a network
-   that always answers "ok", no crashes.  UrlOf / SlotOf are the registry's.  NoCrossTalk must hold: what the
+   that always answers "ok", no crashes.  UrlOf / SlotOf are the registry's (generated module RegistryData).  NoCrossTalk must hold: what the
    second load returns is the second dataset's data.  EmitCross (always true, listed before the invariant;
    TLC runs with -continue) prints every offending pair for replay on the real loader. *)
-EXTENDS DatasetCache, TLC, Json, IOUtils
-
-RegistryFromFile == JsonDeserialize(IOEnv.REGISTRY_FILE)
-LiveRecs == {i \in 1..Len(RegistryFromFile) : /\ RegistryFromFile[i].kind = "remote"
-                                               /\ RegistryFromFile[i].call.resolves
-                                               /\ RegistryFromFile[i].call.loader = "remote"}
-RegDatasets == {RegistryFromFile[i].name : i \in LiveRecs}
-RecOf(d)    == RegistryFromFile[CHOOSE i \in LiveRecs : RegistryFromFile[i].name = d]
-RegUrlOf    == [d \in RegDatasets |-> RecOf(d).call.url]
-RegSlotOf   == [d \in RegDatasets |-> RecOf(d).call.folder \o "/" \o RecOf(d).call.slot]
+EXTENDS DatasetCache, RegistryData, TLC, Json
+(* RegistryData.tla is GENERATED at check time (harness/c18.py): RegDatasets = names of the remote datasets that reach
+   the remote loader, RegUrlOf / RegSlotOf = their URL and "<folder>/<cache file name>". *)
 
 PairInit == \E a \in Datasets, b \in Datasets :
               /\ a # b
